@@ -89,5 +89,8 @@ func syncDir(path string) error {
 	if err := dir.Sync(); err != nil {
 		return err
 	}
+	if err := verifhook.Fail("walstore:syncdir:after-sync"); err != nil {
+		return err
+	}
 	return nil
 }
